@@ -707,6 +707,9 @@ fn flush_held() -> bool {
 }
 
 /// Run one complete execution of `program` under the given choice prefix.
+/// consecutive polls without an idle executor after which the network is pumped anyway (2 ms of virtual time)
+const BUSY_PUMP_STEPS: u64 = 2000;
+
 pub fn run_one<F, Fut>(cfg: &RunConfig, prefix: &[u8], program: F) -> RunOutcome
 where
     F: FnOnce(Ctx) -> Fut,
@@ -743,6 +746,7 @@ where
     }));
     let horizon = T0_SEC * SEC + cfg.horizon_ms * MS;
     let mut steps: u64 = 0;
+    let mut busy_steps: u64 = 0;
 
     let result = std::panic::catch_unwind(std::panic::AssertUnwindSafe(|| -> End {
         loop {
@@ -774,6 +778,16 @@ where
                 }
             };
             if let Some(id) = next {
+                // The network does not wait for the executor to go idle: after BUSY_PUMP_STEPS consecutive polls (that much
+                // virtual time at step_ns per poll) whatever was sent is delivered. Without this a task that never goes
+                // idle (e.g. a worker asking for zero-length sleeps because something is overdue) starves every datagram.
+                busy_steps += 1;
+                if busy_steps >= BUSY_PUMP_STEPS {
+                    busy_steps = 0;
+                    if pump_network(&sh) | flush_held() {
+                        with(|w| *w.counters.entry("busy_network_pumps").or_insert(0) += 1);
+                    }
+                }
                 {
                     // time always passes: every poll costs step_ns of virtual time
                     let mut g = sh.inner.lock().unwrap();
@@ -809,6 +823,7 @@ where
                 }
                 continue;
             }
+            busy_steps = 0;
             if pump_network(&sh) {
                 continue;
             }
